@@ -86,6 +86,19 @@ def Excl_reuseOrderFlip (t : Dense) (reuse : Option Dense) : Bool :=
 def Excl_rowMajorResult (t : Dense) (reuseGiven unsafe_ : Bool) : Bool :=
   t.ap.o.col && !reuseGiven && !unsafe_ && t.win.len != 1 && !isScalar t.ap.shape
 
+/-- F28 (second form): `Transpose()` of a *vector* with a pending (no-op) transpose moves no data but
+    overwrites the strides with the default ones: a vector view with a non-unit stride then reads
+    other cells. -/
+def Excl_transposeVectorStrides (t : Dense) : Bool :=
+  t.old.isSome && isVector t.ap.shape && !isScalar t.ap.shape &&
+    t.ap.strides != Dense.defaultStrides t.ap.o.col t.ap.shape
+
+/-- F39 (C19/C04): a physical transposition (explicit, or implied by `Reshape` / a second `T`) of a
+    tensor whose storage is shared with other live tensors (its views, its parent) moves the cells
+    under them: their elements change although they were not the destination. -/
+def Excl_transposeShared (others : List Dense) (t : Dense) : Bool :=
+  t.old.isSome && !isVector t.ap.shape && !isScalar t.ap.shape && others.any (fun o => o.win.buf == t.win.buf)
+
 /-- does `T axes` on `t` run the physical transpose first? (pending, not vector, not "reversed") -/
 def T_materialises (t : Dense) (axes : List Int) : Bool :=
   match t.old, t.ap.T axes with
